@@ -182,9 +182,14 @@ def split_frames(data):
             if not b & 128:
                 break
             if j - i > 4:
-                return out, data[i:]
+                return out, data[i:]          # malformed remaining length (a 5th byte would be needed)
         if j + n > len(data):
             return out, data[i:]
         out.append(data[i:j + n])
         i = j + n
     return out, b''
+
+
+def malformed_length(data):
+    """the unframed tail starts with a fixed header followed by 4 continuation bytes: no packet can ever complete"""
+    return len(data) >= 5 and all(b & 128 for b in data[1:5])
